@@ -30,6 +30,11 @@ pub struct Case {
     /// every value of the history is multiplied by 10^value_exp
     #[serde(default)]
     pub value_exp: i8,
+    /// every weight (also the implicit unit weights) is additionally multiplied by 1e-310, which puts the
+    /// weights of a history around the subnormal border (1e-316 .. 1e-304); only count(), min(), max(),
+    /// is_empty() and the twin comparison are checked then (x * w underflows, so sum()/mean() carry no accuracy)
+    #[serde(default)]
+    pub tiny_weights: bool,
 }
 
 pub struct C16;
@@ -61,7 +66,7 @@ impl Truth {
     }
 }
 
-fn agg_check(d: &AnyTD, t: &Truth, step: usize) -> Result<(), (String, String)> {
+fn agg_check(d: &AnyTD, t: &Truth, step: usize, tiny: bool) -> Result<(), (String, String)> {
     let (count, sum, mean, mn, mx) = (d.count(), d.sum(), d.mean(), d.min(), d.max());
     if t.inserts == 0 {
         if !d.is_empty() {
@@ -81,6 +86,12 @@ fn agg_check(d: &AnyTD, t: &Truth, step: usize) -> Result<(), (String, String)> 
         }
     } else if (count - t.count).abs() > 1e-9 * t.count {
         return Err(("count!=sum-of-weights".into(), format!("step {}: count() = {} but the inserted weights sum to {}", step, count, t.count)));
+    }
+    if tiny {
+        if mn != t.min || mx != t.max {
+            return Err((if mn != t.min { "min" } else { "max" }.into(), format!("step {}: min()/max() = {}/{} but the inserted extremes are {}/{}", step, mn, mx, t.min, t.max)));
+        }
+        return Ok(());
     }
     let tol = 1e-9 * t.abs_sum + f64::MIN_POSITIVE;
     if (sum - t.sum).abs() > tol {
@@ -112,9 +123,10 @@ impl Check for C16 {
         let mut reads = 0u32;
         let mut zero_inserts = 0u32;
         let mut max_fusion = false;
-        let wunit = 10f64.powi(c.weight_exp as i32);
+        let wunit = if c.tiny_weights { 1e-310 } else { 10f64.powi(c.weight_exp as i32) };
         let vunit = 10f64.powi(c.value_exp as i32);
-        let ok = |x: f64, w: f64| x.is_finite() && w.is_finite() && w > 0.0 && (x * w).is_finite() && (x == 0.0 || (x * w).abs() > 1e-290);
+        let tiny = c.tiny_weights;
+        let ok = |x: f64, w: f64| x.is_finite() && w.is_finite() && w > 0.0 && (x * w).is_finite() && (tiny || x == 0.0 || (x * w).abs() > 1e-290);
         macro_rules! twin_eq {
             ($step:expr, $what:expr, $a:expr, $b:expr) => {{
                 let (a, b): (f64, f64) = ($a, $b);
@@ -130,9 +142,15 @@ impl Check for C16 {
                     if !x.is_finite() {
                         continue;
                     }
-                    d.insert(*x);
-                    twin.insert(*x);
-                    t.add(*x, 1.0);
+                    if tiny {
+                        d.insert_weighted(*x, wunit);
+                        twin.insert_weighted(*x, wunit);
+                        t.add(*x, wunit);
+                    } else {
+                        d.insert(*x);
+                        twin.insert(*x);
+                        t.add(*x, 1.0);
+                    }
                 }
                 Op::InsertW(x, w) => {
                     let w = &(*w * wunit);
@@ -148,9 +166,15 @@ impl Check for C16 {
                     let mut g = stat::SplitMix64(*seed);
                     for _ in 0..*n {
                         let x = (lo + span * g.f64()) * vunit;
-                        d.insert(x);
-                        twin.insert(x);
-                        t.add(x, 1.0);
+                        if tiny {
+                            d.insert_weighted(x, wunit);
+                            twin.insert_weighted(x, wunit);
+                            t.add(x, wunit);
+                        } else {
+                            d.insert(x);
+                            twin.insert(x);
+                            t.add(x, 1.0);
+                        }
                     }
                 }
                 Op::ZeroW(x) => {
@@ -171,7 +195,7 @@ impl Check for C16 {
                 }
                 Op::ReadAgg => {
                     reads += 1;
-                    if let Err((sig, msg)) = agg_check(&d, &t, step) {
+                    if let Err((sig, msg)) = agg_check(&d, &t, step, c.tiny_weights) {
                         return fail(sig, format!("{} [{} delta={} backlog={}]", msg, c.scale.name(), c.delta, c.backlog));
                     }
                     twin_eq!(step, "count()", d.count(), twin.count());
@@ -202,7 +226,7 @@ impl Check for C16 {
                 return fail(if d.min() != t.min { "min" } else { "max" }, format!("step {} ({:?}): min()/max() = {}/{} but the inserted extremes are {}/{}", step, op, d.min(), d.max(), t.min, t.max));
             }
         }
-        if let Err((sig, msg)) = agg_check(&d, &t, c.ops.len()) {
+        if let Err((sig, msg)) = agg_check(&d, &t, c.ops.len(), c.tiny_weights) {
             return fail(sig, format!("{} [{} delta={} backlog={}]", msg, c.scale.name(), c.delta, c.backlog));
         }
         if t.inserts > 0 {
@@ -217,6 +241,7 @@ impl Check for C16 {
             .class_if(max_fusion, "fusion")
             .class_if(zero_inserts > 0, "zero_weight_inserts")
             .class_if(c.weight_exp != 0, "rescaled_weights")
+            .class_if(c.tiny_weights, "subnormal_weights")
             .class_if(!t.unit, "weighted");
         info.inner_evals = c.ops.len() as u64;
         Verdict::Pass(info)
@@ -239,8 +264,8 @@ fn strategy(tier: Tier) -> BoxedStrategy<Case> {
     ];
     let weight_exp = prop_oneof![3 => Just(0i8), 1 => -30i8..=30, 1 => prop_oneof![Just(-20i8), Just(-17), Just(-16), Just(20)]];
     let value_exp = prop_oneof![4 => Just(0i8), 1 => -30i8..=30];
-    (scale(), delta_strategy(), backlog_strategy(), prop::collection::vec(op, 0..maxops), weight_exp, value_exp)
-        .prop_map(|(scale, delta, backlog, ops, weight_exp, value_exp)| normalise(Case { scale, delta, backlog, ops, weight_exp, value_exp }))
+    (scale(), delta_strategy(), backlog_strategy(), prop::collection::vec(op, 0..maxops), weight_exp, value_exp, prop::bool::weighted(0.06))
+        .prop_map(|(scale, delta, backlog, ops, weight_exp, value_exp, tiny_weights)| normalise(Case { scale, delta, backlog, ops, weight_exp: if tiny_weights { 0 } else { weight_exp }, value_exp, tiny_weights }))
         .boxed()
 }
 
@@ -266,7 +291,7 @@ pub fn checks() -> Vec<Box<dyn DynCheck>> {
 }
 
 pub fn run(ctx: &Ctx) {
-    ctx.set_rule("generated: scale K0..K3, delta 1.01..1000, backlog 0..1000, histories of insert / insert_weighted (weights 1e-6..1e6, in 40 % of the histories all multiplied by 10^e with e in -30..=30) / seeded blocks of unit inserts / zero-weight inserts / reads (quantile, cdf, aggregates: they force merges) / clear. Oracle: count() == sum of weights (exact for unit weights, rel 1e-9 otherwise), sum()/mean() within 1e-9 of the accumulated |x*w|, min()/max() exactly the extremes, every read bit-identical to a twin digest fed the same history without the zero-weight inserts, is_empty() iff no positive weight since creation/clear (checked after every op without forcing a merge). Non-trivial: >= 2 reads (merges) and fusion happened (n_centroids < inserts). Distinct = hash of the case.");
+    ctx.set_rule("generated: scale K0..K3, delta 1.01..1000, backlog 0..1000, histories of insert / insert_weighted (weights 1e-6..1e6, in 40 % of the histories all multiplied by 10^e with e in -30..=30; in 6 % of the histories all weights, also the unit ones, are multiplied by 1e-310 and thus lie around the subnormal border, where only count/min/max/is_empty and the twin comparison are checked) / seeded blocks of unit inserts / zero-weight inserts / reads (quantile, cdf, aggregates: they force merges) / clear. Oracle: count() == sum of weights (exact for unit weights, rel 1e-9 otherwise), sum()/mean() within 1e-9 of the accumulated |x*w|, min()/max() exactly the extremes, every read bit-identical to a twin digest fed the same history without the zero-weight inserts, is_empty() iff no positive weight since creation/clear (checked after every op without forcing a merge). Non-trivial: >= 2 reads (merges) and fusion happened (n_centroids < inserts). Distinct = hash of the case.");
     ctx.run_regressions(&[&C16]);
     let t = ctx.tier;
     ctx.run_random(&C16, t.pick(60_000, 1_000_000), move || strategy(t));
